@@ -47,7 +47,18 @@ static uint64_t body(int t) {
   const vop *o = find_op(MENU[oi].op);
   return run_digest(o, &o->shapes[MENU[oi].shape % o->nshapes], t & 1);
 }
-void hb_prepare(void) { for (int t = 0; t < SC[cur].nthreads; t++) REF[t] = body(t); }
+#include <sys/mman.h>
+#include <sys/wait.h>
+/* sequential reference digests are computed in a CHILD process: the explorer's own image must stay cold, otherwise lazily
+   initialised library state (a table built on first use, a warm cache) would already exist when the threads start */
+void hb_prepare(void) {
+  static uint64_t *shm; if (!shm) shm = mmap(NULL, 4096, PROT_READ | PROT_WRITE, MAP_SHARED | MAP_ANONYMOUS, -1, 0);
+  pid_t p = fork();
+  if (p == 0) { for (int t = 0; t < SC[cur].nthreads; t++) shm[t] = body(t); _exit(0); }
+  int st; waitpid(p, &st, 0);
+  if (!(WIFEXITED(st) && WEXITSTATUS(st) == 0)) { fprintf(stderr, "HARNESS-ERROR: sequential reference run failed\n"); _exit(2); }
+  for (int t = 0; t < SC[cur].nthreads; t++) REF[t] = shm[t];
+}
 static void tmain(void *a) { int t = (int)(intptr_t)a; GOT[t] = body(t); }
 void hb_root(void) {
   memset(GOT, 0, sizeof GOT);
